@@ -238,4 +238,13 @@ def oracle(c):
                 fb = type(e).__name__
             if fa != fb or a.run(snap) != b.run(snap):
                 fails.append(Failure("oracle", PROP, "run() and step()-until-done end in different states", "life:run-vs-step"))
+            elif fa is None:
+                try:
+                    va = a.toy_views(63) if toy else a.sim_views((1 << 13) - 1)
+                    vb = b.toy_views(63) if toy else b.sim_views((1 << 13) - 1)
+                except Exception:
+                    va = vb = None
+                if va != vb:
+                    which = next((g for (g, x), (_, y) in zip(va, vb) if x != y), "?")
+                    fails.append(Failure("oracle", PROP, f"after run() the view `{which}` differs from the one after step()-until-done", "life:run-vs-step-view"))
     return fails
